@@ -27,7 +27,36 @@ MIN_NONVACUOUS = {'quick': {'split.value_is_sum_of_intervals': 200, 'split.rows_
                                'split.storage_coupled_not_above_unsplit': 300}}
 
 
+def gen_gap_case(rng):
+    """uncoupled portfolio with an interval in which NO asset has a mapped step, while the order book still has its (unmapped) variables there."""
+    g = gen.gen_grid(rng, freqs=['h', '2h'], steps=(72, 72), hour_offsets=(0,), tzs=[None, 'CET', 'Asia/Kolkata'])
+    pts = gen.grid_points(g)
+    d0 = pd.Timestamp(g['start'])
+    g['end'] = str(d0 + pd.Timedelta(days=3 if g['freq'] == 'h' else 4))
+    f = gen.UNIT_F[g['unit']]
+    day = lambda k, h=0: str(d0 + pd.Timedelta(days=k, hours=h))
+    last = 2 if g['freq'] == 'h' else 3
+    mk = lambda nm, s_, e_: {'type': 'SimpleContract', 'name': nm, 'nodes': ['n0'], 'price': 'p0', 'min_cap': -5. * f, 'max_cap': 5. * f, 'extra_costs': 0.1, 'wacc': 0., 'start': s_, 'end': e_}
+    orders = {'start': [], 'end': [], 'capa': [], 'price': []}
+    for k in (0, last):
+        for _ in range(int(rng.integers(1, 4))):
+            h0 = int(rng.integers(0, 20)); h1 = int(rng.integers(h0 + 1, 24))
+            orders['start'].append(day(k, h0)); orders['end'].append(day(k, h1)); orders['capa'].append(float(gen.pick(rng, [-2., 1., 3.]))); orders['price'].append(gen.r2(20 + rng.normal(0, 6)))
+    assets = [mk('early', None, day(1)), {'type': 'OrderBook', 'name': 'ob', 'nodes': ['n0'], 'orders': orders, 'full_exec': False, 'wacc': 0.}, mk('late', day(last), None)]
+    if rng.random() < 0.5:
+        assets = assets[::-1]
+    T = len(gen.grid_points(g))
+    spec = {'grid': g, 'assets': assets, 'prices': gen.gen_prices(rng, T, ['p0'], kind='normal')}
+    if not all(gen.local_ok(day(k), g.get('tz')) for k in range(0, last + 2)):
+        return None
+    return spec, 'uncoupled', 'd'
+
+
 def gen_case(rng):
+    if rng.random() < 0.06:
+        q = gen_gap_case(rng)
+        if q is not None:
+            return q
     cls = gen.pick(rng, ['uncoupled', 'uncoupled', 'storage', 'storage', 'general'])
     long_h = rng.random() < 0.2
     if long_h:
@@ -135,7 +164,11 @@ def run_case(rng, tier, case):
         for i, k in ks.items():
             inv_s.setdefault(k, []).append(i)
         same_rows = sorted(ku.values()) == sorted(ks.values())
-        case.check('split.rows_match_unsplit', same_rows, nonvacuous=n_int >= 2, n_unsplit=len(ku), n_split=len(ks))
+        # what must agree is WHERE the assets act: the (asset, node, step) rows on the original grid. How many variables an asset uses for a step may
+        # differ legitimately (a contract whose capacity has one sign inside an interval needs one variable there, two over the whole horizon)
+        cells = lambda m_: set(zip(m_['asset'].astype(str), m_['node'].astype(str), m_['time_step'].astype(int)))
+        case.check('split.rows_match_unsplit', cells(su.mapping) == cells(ms), nonvacuous=n_int >= 2, n_unsplit=len(ku), n_split=len(ks),
+                   only_unsplit=sorted(cells(su.mapping) - cells(ms))[:4], only_split=sorted(cells(ms) - cells(su.mapping))[:4])
         if same_rows and len(set(ku.values())) == len(ku):
             xt = np.zeros(len(su.c))
             for i, k in ku.items():
